@@ -33,7 +33,7 @@ TRUSTED = [
 	'text = UTF-8 octets; CPython UTF-8 codec inverse on valid text',
 ]
 ASSUMPTIONS = ['guards of uri_roundtrip_partial: F1 (no code point < U+0010 in escaped positions), password only with a user name, host in canonical lower case, port None or 1..65535, path empty or starting with "/", query in QueryString normal form']
-RULE = ('component tuples: known/unknown schemes and relative references without scheme and authority, user/password over Unicode incl. ":@/?#%", hosts of every syntactic kind (reg-name, also holding delimiters, blanks and percent signs; IPv4, bracketed IPv6, IDN), ports None/default/other, 0-5 path segments and 0-4 query pairs over Unicode, fragment; '
+RULE = ('component tuples: known/unknown schemes and relative references without scheme and authority, user/password over Unicode incl. ":@/?#%", hosts of every syntactic kind (reg-name, also holding delimiters, blanks and percent signs; IPv4, bracketed IPv6, IDN), ports None/default/other, 0-5 path segments (also dot and empty segments) and 0-4 query pairs over Unicode, fragment; the composed text also parsed into an object that held another URI, and the operands checked after ==; '
 	'non-trivial = all eight components come back and the second serialisation is byte-identical; distinct by composed text')
 
 SCHEMES = [u'http', u'https', u'ftp', u'foo', u'x-y.z+1', u'svn+ssh']
@@ -58,7 +58,7 @@ def cases(rng, tier):
 		pw = text(rng, rng.choice((0, 0, 1, 4))) if user or rng.random() < 0.05 else u''
 		host = rng.choice(HOSTS)
 		port = rng.choice((None, None, 80, 443, 21, 22, 1, 8080, 65535, 0, 65536))
-		segs = tuple(text(rng, rng.choice((0, 1, 1, 2, 5))) for _ in range(rng.randrange(0, 6)))
+		segs = tuple(text(rng, rng.choice((0, 1, 1, 2, 5))) if rng.random() < 0.9 else rng.choice((u'.', u'..', u'', u'...')) for _ in range(rng.randrange(0, 6)))
 		pairs = tuple((text(rng, rng.choice((1, 1, 3))), text(rng, rng.choice((0, 1, 4)))) for _ in range(rng.randrange(0, 5)))
 		frag = text(rng, rng.choice((0, 0, 1, 5)))
 		if rng.random() < 0.15:
@@ -151,6 +151,26 @@ def oracle(case):
 		bad.append('second serialisation differs: %r vs %r' % (b2, b))
 	if v.tuple != u.tuple and not bad:
 		bad.append('tuple differs: %r vs %r' % (v.tuple, u.tuple))
+	if not bad:
+		# the same text parsed into an object that held another URI before: nothing of the earlier one shows
+		try:
+			w = URI(b'https://old.example:8443/old/path?old=1#old')
+			if not scheme:
+				w = URI()        # a reference without scheme is read relative to the class of the object: only a plain URI object here
+				w.parse(b'/old/path?old=1#old')
+			w.parse(b)
+			if (type(w), w.tuple, w.port) != (type(v), v.tuple, v.port):
+				bad.append('parsed into an object that held another URI: %r (%s, port %r), a fresh object gives %r (%s, port %r)' % (w.tuple, type(w).__name__, w.port, v.tuple, type(v).__name__, v.port))
+		except Exception as e:
+			bad.append('re-parsing into a used object raised %s' % exc_name(e))
+		# comparing does not change either operand
+		try:
+			before = (u.tuple, v.tuple, bytes(u))
+			u == v, v == u, u == b, v != u
+			if (u.tuple, v.tuple, bytes(u)) != before:
+				bad.append('a comparison changed an operand: %r -> %r' % (before[0], u.tuple))
+		except Exception as e:
+			bad.append('comparison raised %s' % exc_name(e))
 	if bad:
 		return {'what': '; '.join(bad)[:600], 'composed': b.decode('latin-1'), 'components': repr(case[1:])[:300], 'finding': fid}
 	return None
